@@ -139,6 +139,25 @@ CHECKS.append({
     "design_ref": "DESIGN.md section 7, C11",
 })
 
+CHECKS.append({
+    "property_id": "C13",
+    "text": ("Theorem C13_holds (coq/Props/C13.v) over coq/Model/Reply.v (what pycomm3 computes from raw reply bytes: base/SendUnitData/SendRRData/"
+             "register/generic/read/fragmented/write/multi-service response parsing, get_service_status/get_extended_status, how read/write/"
+             "generic_message/open turn responses into Tags) against the independent status-word reader coq/Spec/ReplyReader.v; status tables, "
+             "Services and MULTI_PACKET_SERVICES regenerated: (1) for ALL byte strings a connected reply is valid exactly when encapsulation "
+             "status 0, reply bit set and general status 0 (or 6 for the partial-transfer services), unconnected replies accept 0 only — so a "
+             "reply too short to hold its status words is never success; (2) every well-formed non-success reply (header-only encapsulation "
+             "errors included) has a non-empty error text naming the general status (table text or two-digit hex) and the extended status it "
+             "carries (structural lemmas + a 256-value sweep lifted over arbitrary remaining bytes); (3) multi-service demultiplexing returns "
+             "the per-service replies and classifies each by its own words; (4) for arbitrary reply bytes no public call raises anything but a "
+             "library exception, a truthy result is backed by status words that say success, well-formed error replies give falsy Tags with "
+             "text. Tie: correspondence on ~20k raw replies per quick run (all statuses x extended sizes x services x request kinds, every "
+             "truncation, corruptions) through the real response classes and the public calls over a canned-reply socket."),
+    "note": COMMON_NOTE + " C13: closed under the global context. Typed values cover atomic integer tags (scalars, 1-dim arrays); a fragmented write of zero segments is outside the input space (fixed by the request, not by a reply).",
+    "technique": "Coq proof (case analysis on reply bytes, finite sweeps lifted by structural lemmas, induction on reply lists) + model/implementation correspondence on raw replies",
+    "design_ref": "DESIGN.md section 7, C13",
+})
+
 _PENDING = "vertical not yet built in this session (see DESIGN.md section 9 staging); decided by Coq proof + correspondence when it lands"
 _CLAIMED = {c["property_id"] for c in CHECKS}
 NOT_APPLICABLE = [{"property_id": f"C{i:02d}", "reason": _PENDING} for i in range(1, 20) if f"C{i:02d}" not in _CLAIMED]
